@@ -33,6 +33,7 @@ type Pack struct {
 	Effects    []EffectRule     `json:"effects"`
 	RecoverFirst []RecoverFirst `json:"recover_first"`
 	Enclosed   []Enclosed       `json:"enclosed"`
+	NonBlockingSends []NonBlockingSends `json:"nonblocking_sends"`
 	SafetyRules []string        `json:"safety_rules"` // opt-in safety rules, e.g. "map-key-hashable" (see hashable.go)
 }
 
@@ -217,6 +218,7 @@ func cmdCheck(repo, verifDir, id, tier string) int {
 	effObls := e.effectObligations(pack.Effects)
 	effObls = append(effObls, e.recoverFirstObligations(pack.RecoverFirst)...)
 	effObls = append(effObls, e.enclosedObligations(pack.Enclosed)...)
+	effObls = append(effObls, e.nonBlockingSendObligations(pack.NonBlockingSends)...)
 	all = append(all, effObls...)
 	if len(effObls) > 0 {
 		stats.add("ast-scan", 0, true)
